@@ -190,10 +190,114 @@ func init() {
 		c.Set("traces_validated_against_impl", len(scripts))
 		c.Set("evaluations", len(scripts))
 		c.Set("distinct_nontrivial", len(scripts))
+		customAdapterPhase(c, drv)
 		c.Set("rule", "scripts = per-edge output of spec/Download.tla for every finished download: <= MaxReq answers (status 200/206/416/404/500/429 x body exact/suffix/wrong suffix/prefix/extra/bit flip/other object x Content-Range right/wrong/missing/malformed x connection cut) x initial .part in {absent, valid prefix, garbage, size-1, longer}; sampled round-robin over classes (part x result x status/cut/range pattern)")
 		for i := 0; i < len(scripts); i += len(scripts)/4 + 1 {
 			c.Sample(scripts[i])
 		}
-		c.Assume("basic adapter only (ssh and custom/standalone adapters not yet bound); one process; the object is 4001 bytes so that the size-1 boundary of the resume rule is a cell boundary of the model")
+		c.Assume("basic adapter (HTTP scripts) and custom adapter (agent scripts); the ssh adapter is not yet bound; one process; the object is 4001 bytes so that the size-1 boundary of the resume rule is a cell boundary of the model")
 	}
+}
+
+// customAdapterPhase: spec/CustomDownload.tla (transcription of customAdapter.DoTransfer) is
+// model-checked, its variant without the re-hash must violate OkMeansValid, and every agent
+// script it generates is played to the real queue + custom adapter by a scripted transfer agent.
+type agentMsgC struct {
+	Ev   string `json:"ev"`
+	Oid  string `json:"oid"`
+	Err  bool   `json:"err"`
+	File string `json:"file"`
+}
+type customSpec struct {
+	Script     []agentMsgC `json:"script"`
+	Result     string      `json:"result"`
+	FinalValid bool        `json:"finalValid"`
+}
+
+func customAdapterPhase(c *core.Ctx, drv string) {
+	cfg := "CustomDownload_q.cfg"
+	gcfg := writeCfgVariant(c, cfg, "CustomDownload_gen.cfg", map[string]string{"Emit = FALSE": "Emit = TRUE"})
+	r := c.TLC(core.TLCOpts{Module: "CustomDownload", Cfg: gcfg, Workers: 2, Timeout: 10 * time.Minute})
+	c.MustPass(r, "CustomDownload/"+cfg)
+	if rm := c.TLC(core.TLCOpts{Module: "CustomDownload", Cfg: "CustomDownload_noverify.cfg", Workers: 2, Timeout: 10 * time.Minute}); rm.Violated != "OkMeansValid" {
+		c.Infra("non-vacuity: the custom-adapter variant without the re-hash violates %q, expected OkMeansValid", rm.Violated)
+	}
+	var scripts []*customSpec
+	seen := map[string]bool{}
+	if _, err := core.ReadBehaviours(r.OutFile, func(raw []byte) error {
+		if seen[string(raw)] {
+			return nil
+		}
+		seen[string(raw)] = true
+		var s customSpec
+		if err := json.Unmarshal(raw, &s); err != nil {
+			return err
+		}
+		scripts = append(scripts, &s)
+		return nil
+	}); err != nil {
+		c.Infra("read agent scripts: %v", err)
+	}
+	if len(scripts) < 50 {
+		c.Infra("only %d agent scripts", len(scripts))
+	}
+	nproc := 12
+	results := make([]*dlResC, len(scripts))
+	core.Parallel(nproc, nproc, func(p int) {
+		dir := filepath.Join(c.Work, fmt.Sprintf("cdl-%d", p))
+		os.MkdirAll(dir, 0o755)
+		in, out := filepath.Join(dir, "in"), filepath.Join(dir, "out")
+		f, _ := os.Create(in)
+		w := bufio.NewWriter(f)
+		enc := json.NewEncoder(w)
+		for i := p; i < len(scripts); i += nproc {
+			enc.Encode(map[string]interface{}{"id": i, "adapter": "custom", "msgs": scripts[i].Script, "maxreq": 2})
+		}
+		w.Flush()
+		f.Close()
+		if b, err := driverCmd(c, drv, "dl", in, out).CombinedOutput(); err != nil {
+			c.Infra("dl driver (custom): %v\n%s", err, core.Tail(string(b), 2000))
+		}
+		of, _ := os.Open(out)
+		defer of.Close()
+		sc := bufio.NewScanner(of)
+		sc.Buffer(make([]byte, 1<<20), 1<<24)
+		for sc.Scan() {
+			var rr dlResC
+			if json.Unmarshal(sc.Bytes(), &rr) == nil && rr.ID < len(results) {
+				cp := rr
+				results[rr.ID] = &cp
+			}
+		}
+	})
+	drift := 0
+	for i, s := range scripts {
+		rr := results[i]
+		if rr == nil {
+			c.Infra("no result for agent script %d", i)
+		}
+		if strings.HasPrefix(rr.Result, "infra") {
+			c.Infra("driver: %s", rr.Result)
+		}
+		mk := func(assertion, why string) {
+			c.Report(core.Violation{Assertion: assertion, Fields: map[string]string{"adapter": "custom", "spec_result": s.Result},
+				Detail: map[string]interface{}{"why": why, "agent_script": s, "observed": rr}})
+		}
+		switch {
+		case rr.Result == "ok" && rr.Final != "valid":
+			mk("success-means-hash-valid-object", fmt.Sprintf("download reported success but the file at the object's place is %s (%d bytes)", rr.Final, rr.FinalLen))
+		case rr.Result == "fail" && rr.Final != "absent":
+			mk("failure-leaves-no-final-file", fmt.Sprintf("download reported failure but a %s file (%d bytes) sits at the object's final place", rr.Final, rr.FinalLen))
+		case rr.Final == "corrupt":
+			mk("final-file-hashes-to-its-name", "a file whose bytes do not hash to the oid was put into local storage")
+		case rr.Result != s.Result:
+			drift++
+		}
+	}
+	c.Set("custom_adapter_scripts", len(scripts))
+	c.Set("custom_adapter_drift_differs_from_implementation_model", drift)
+	c.AddInt("evaluations", int64(len(scripts)))
+	c.AddInt("distinct_nontrivial", int64(len(scripts)))
+	c.AddInt("traces_validated_against_impl", int64(len(scripts)))
+	c.Set("custom_adapter_rule", "agent scripts = per-edge output of spec/CustomDownload.tla: <= MaxMsgs messages (progress / complete with right or wrong oid, with or without error, naming a file whose content is exact / prefix / extra / bit flip / other / empty / missing; unknown event; unparsable line; end of stream), all of them replayed")
 }
